@@ -22,18 +22,29 @@ from vf.cli import HarnessError, run_shards
 
 LEVEL = 'exploration'
 RULE = ('case = (cascade, destination of each queued pull request in order '
-        'of entry, SUCCESSFUL/FAILED for every queue commit); cascades: 1-3 '
-        'development versions x stabilization branches x hotfix branch '
-        'position; queue commits built in an in-memory DAG by the recipe of '
-        'add_to_queue, one merge commit per (pull request, version); the real '
-        'QueueCollection is fed with the q/* branches in git order (plus '
-        'permuted orders), finalize(), validate(), then mergeable_prs / '
-        'mergeable_queues / failed_prs are compared with the statement-'
-        'derived oracle (longest prefix whose newest commit on every targeted '
-        'version is SUCCESSFUL; hotfix queues on their own). non-trivial = '
-        '>= 2 pull requests and >= 1 non-SUCCESSFUL commit; distinct by '
-        '(structure, status bitmask). coverage.complete_subspaces lists '
-        'exactly what was enumerated completely.')
+        'of entry, SUCCESSFUL/FAILED for every queue commit). Cascades: 1-3 '
+        'development versions x stabilization branches (quick: <= 1, '
+        'thorough: every subset) x one hotfix branch (absent, older than '
+        'every development branch, or on the line of any of them); thorough '
+        'adds development/<major> names, two hotfix branches and a hotfix at '
+        'revision 2 for <= 3 PRs. Queue commits are built in an in-memory '
+        'DAG by the recipe of add_to_queue, one merge commit per (pull '
+        'request, version). The real BranchCascade.build + QueueCollection '
+        '(_add_branch in git ref order, and in reversed / seeded-shuffled '
+        'order whenever that changes the finalized tables; finalize; '
+        'validate) run on real branch objects; mergeable_prs, the tips of '
+        'mergeable_queues and failed_prs are compared with the statement-'
+        'derived oracle (per queue - the development/stabilization queue and '
+        'each hotfix queue - the longest prefix whose newest commit on every '
+        'targeted version is SUCCESSFUL). Side checks on seeded samples: '
+        'FAILED replaced by INPROGRESS/NOTSTARTED/STOPPED (same selection, '
+        'failed_prs reports FAILED only), other pull request ids (same '
+        'selection), force merge (whole queue), bulk mode against the '
+        'complete pipeline on new objects, in-memory git against real git. '
+        'non-trivial = >= 2 pull requests and >= 1 non-SUCCESSFUL commit; '
+        'distinct by (structure, status bitmask, add order). '
+        'coverage.complete_subspaces lists exactly what was enumerated '
+        'completely.')
 ASSUMPTIONS = [
     'git replaced by an in-memory commit DAG (validated against real git on '
     'coverage.traces_validated_on_real_git cases), git host replaced by a '
